@@ -133,9 +133,9 @@ func genValue(t *rapid.T, rsize int) string {
 
 var simRuleKinds = []string{
 	"abs/set", "abs/set", "abs/set", "abs/set", "abs/set", "abs/set", "abs/set", "abs/set",
-	"abs/get", "abs/get", "abs/get", "abs/get", "abs/show", "abs/show", "abs/show",
-	"rel/get", "rel/get", "rel/get", "rel/show", "rel/show",
-	"onvalid/show", "onvalid/show", "onexit/show", "onexit/show",
+	"abs/get", "abs/get", "abs/get", "abs/get", "abs/get", "abs/get", "abs/show", "abs/show", "abs/show", "abs/show",
+	"rel/get", "rel/get", "rel/get", "rel/get", "rel/show", "rel/show", "rel/show",
+	"onvalid/show", "onvalid/show", "onvalid/show", "onexit/show", "onexit/show", "onexit/show",
 	"get_ticks", "get_ticks",
 	"rel/set", "onvalid/get", "onexit/get", "onrecv", "get_all", "show_all", "odd",
 }
@@ -147,6 +147,27 @@ func genSimCase(t *rapid.T) SimCase {
 	c.StopOn = -1
 	if rapid.IntRange(0, 9).Draw(t, "stop") < 4 {
 		c.StopOn = rapid.IntRange(0, c.M.Outputs-1).Draw(t, "stopOn")
+	}
+	closing := c.StopOn >= 0 && rapid.IntRange(0, 9).Draw(t, "closing") < 7
+	if closing {
+		if c.Ticks < 12 {
+			c.Ticks += 8
+		}
+		// make the watched output reachable: processor 0 ends in a handshaked write bonded to it
+		p := &c.M.Procs[0]
+		if n := len(p.Prog); n > 1 && p.Prog[n-1] == "j 0" {
+			p.Prog = p.Prog[:n-1]
+		}
+		k := rapid.IntRange(0, p.M-1).Draw(t, "closeOut")
+		p.Prog = append(p.Prog, fmt.Sprintf("r2owa r0 o%d", k))
+		sink := fmt.Sprintf("o%d", c.StopOn)
+		var bonds [][2]string
+		for _, b := range c.M.Bonds {
+			if b[0] != sink {
+				bonds = append(bonds, b)
+			}
+		}
+		c.M.Bonds = append(bonds, [2]string{sink, fmt.Sprintf("p0o%d", k)})
 	}
 	objs := allObjects(c.M)
 	var ins []string
@@ -173,7 +194,7 @@ func genSimCase(t *rapid.T) SimCase {
 		return rapid.OneOf(rapid.IntRange(0, 3), rapid.IntRange(0, c.Ticks)).Draw(t, "tick")
 	}
 	period := func() int { return rapid.SampledFrom([]int{1, 1, 2, 2, 3, 4, 5, 7}).Draw(t, "period") }
-	n := rapid.IntRange(1, 8).Draw(t, "nrules")
+	n := rapid.IntRange(1, 9).Draw(t, "nrules")
 	for i := 0; i < n; i++ {
 		var text string
 		switch k := rapid.SampledFrom(simRuleKinds).Draw(t, "rkind"); k {
@@ -224,6 +245,17 @@ func genSimCase(t *rapid.T) SimCase {
 			r.Suspended, r.Deleted = true, rapid.Bool().Draw(t, "both")
 		}
 		c.Rules = append(c.Rules, r)
+	}
+	// couple events with what triggers them often enough to see them fire
+	if closing && rapid.IntRange(0, 9).Draw(t, "exitrule") < 6 {
+		o := fmt.Sprintf("o%d", rapid.IntRange(0, c.M.Outputs-1).Draw(t, "exitobj"))
+		c.Rules = append(c.Rules, SRule{Text: "onexit:show:" + o + ":" + format(o)})
+	}
+	if rapid.IntRange(0, 9).Draw(t, "validpair") < 3 {
+		in := rapid.SampledFrom(ins).Draw(t, "validin")
+		c.Rules = append(c.Rules,
+			SRule{Text: fmt.Sprintf("absolute:%d:set:%s:%s", tick(), in, genValue(t, c.M.Rsize))},
+			SRule{Text: "onvalid:show:" + in + ":" + format(in)})
 	}
 	c.Variant = rapid.SampledFrom([]string{"none", "drop", "perm", "perm"}).Draw(t, "variant")
 	if c.Variant == "perm" {
@@ -385,25 +417,21 @@ func propSim(c SimCase) pbt.Outcome {
 	}
 	// the list the simulator is given must be the surviving rules, in order, with their flags
 	{
-		var want []string
+		var want []SRule
 		for _, r := range c.Rules {
 			if !r.Deleted {
-				want = append(want, fmt.Sprintf("%s|%v", r.Text, r.Suspended))
+				want = append(want, r)
 			}
 		}
-		var got []string
-		for _, r := range sbox.Rules {
-			mr, _ := modelParse(r.String())
-			orig := ""
-			for _, cr := range c.Rules {
-				if m2, _ := modelParse(cr.Text); m2 == mr {
-					orig = cr.Text
-				}
-			}
-			got = append(got, fmt.Sprintf("%s|%v", orig, r.Suspended))
+		if len(sbox.Rules) != len(want) {
+			return pbt.Outcome{Fail: pbt.Failf("history", "simbox holds %d rules after the history, expected %d\n%s", len(sbox.Rules), len(want), describe(c))}
 		}
-		if len(got) != len(want) {
-			return pbt.Outcome{Fail: pbt.Failf("history", "simbox holds %d rules after the history, expected %d", len(got), len(want))}
+		for i, r := range sbox.Rules {
+			got, _ := ruleToModel(r)
+			exp, _ := modelParse(want[i].Text)
+			if !sameRule(got, exp) || r.Suspended != want[i].Suspended {
+				return pbt.Outcome{Fail: pbt.Failf("history", "rule %d after the history is %+v, expected %q suspended=%v\n%s", i, r, want[i].Text, want[i].Suspended, describe(c))}
+			}
 		}
 	}
 
@@ -461,6 +489,33 @@ func propSim(c SimCase) pbt.Outcome {
 		return pbt.Outcome{Labels: uniq(labels), Fail: pbt.Failf(sig, "simulation differs from the prediction: %s\n%s", diff, describe(c))}
 	}
 
+	// ---- (i) said directly, without the oracle's VM: right after the injections of tick T the object named by an
+	// active absolute:T:set holds the stated value (the last such rule in list order when several name it), and an
+	// external input is flagged valid
+	{
+		last := map[string]mrule{}
+		for _, r := range active {
+			if r.Class == "absolute" && r.Action == "set" {
+				last[fmt.Sprintf("%d/%s", r.Tick, r.Object)] = r
+			}
+		}
+		for _, r := range last {
+			if r.Tick >= uint64(len(got.Ticks)) || got.Ticks[r.Tick].Pre == "" {
+				continue // beyond the run, or the run had shut down
+			}
+			v, _ := parseSetValue(r.Extra)
+			f, ok := snapField(got.Ticks[r.Tick].Pre, r.Object)
+			if !ok || f != fmt.Sprint(v) {
+				return pbt.Outcome{Labels: uniq(labels), Fail: pbt.Failf("set-not-applied", "%s=%s entering the step of tick %d, rule %q says %d\n%s", r.Object, f, r.Tick, r.Class+":"+fmt.Sprint(r.Tick)+":set:"+r.Object+":"+r.Extra, v, describe(c))}
+			}
+			if o, _ := resolveObj(c.M, r.Object); o.input >= 0 {
+				if iv, _ := snapField(got.Ticks[r.Tick].Pre, "iv"); len(iv) <= o.input || iv[o.input] != '1' {
+					return pbt.Outcome{Labels: uniq(labels), Fail: pbt.Failf("set-without-valid", "external input %s is set at tick %d and not flagged valid (valid flags %s)\n%s", r.Object, r.Tick, iv, describe(c))}
+				}
+			}
+		}
+	}
+
 	// ---- non-triviality: reference run without any set rule
 	var noSets []mrule
 	for _, r := range active {
@@ -514,15 +569,11 @@ func propSim(c SimCase) pbt.Outcome {
 	if got.Shut >= 0 {
 		labels = append(labels, "shut-on-valid")
 	}
-	for _, r := range active {
-		if r.Class == "onvalid" || r.Class == "onexit" {
-			// did it fire?
-			for _, tk := range want.Ticks {
-				_ = tk
-			}
+	for k, n := range want.Fired {
+		if n > 0 && (k == "onvalid" || k == "onexit") {
+			labels = append(labels, k+"-fired")
 		}
 	}
-
 	// ---- metamorphic re-runs of the simulator itself
 	switch c.Variant {
 	case "drop":
@@ -540,7 +591,11 @@ func propSim(c SimCase) pbt.Outcome {
 		if diff := compareRuns(got, got2, false); diff != "" {
 			return pbt.Outcome{Labels: uniq(labels), Fail: pbt.Failf("suspended-or-deleted-not-inert", "the run with suspended/deleted rules differs from the run of the list without them: %s\n%s", diff, describe(c))}
 		}
-		if strings.Join(got.Stdout, "\n") != strings.Join(got2.Stdout, "\n") || fmt.Sprint(got.CSV) != fmt.Sprint(got2.CSV) {
+		// (per-processor trace lines of config:show_pc & co. arrive in goroutine order: compare as a multiset)
+		so1, so2 := append([]string{}, got.Stdout...), append([]string{}, got2.Stdout...)
+		sort.Strings(so1)
+		sort.Strings(so2)
+		if strings.Join(so1, "\n") != strings.Join(so2, "\n") || fmt.Sprint(got.CSV) != fmt.Sprint(got2.CSV) {
 			return pbt.Outcome{Labels: uniq(labels), Fail: pbt.Failf("suspended-or-deleted-not-inert", "printed output changes when suspended/deleted rules are removed\n%s", describe(c))}
 		}
 		labels = append(labels, "variant:drop")
@@ -602,6 +657,18 @@ var Props = []*pbt.Entry{
 			"relative:P fires when T%P==0. One metamorphic re-run per case (drop suspended+deleted rules / permute independent rules). "+
 			"non-trivial = >=1 active set changes the state trace w.r.t. the set-free reference AND >=1 report row or show line is produced",
 		genSimCase, propSim),
+	pbt.Def("sim_pipeline",
+		"machines of 1..2 processors, 1..2 inputs, 1..3 outputs whose last output is bonded to a processor running straight-line code that ends in "+
+			"r2owa (so the run ends); 0..all input values; display type unsigned|hex|bin; run by Bondmachine.SinglePipelineSimulate, which itself writes "+
+			"absolute:0:set:iK:v and onexit:show:oK:type rules. Oracle: a fresh VM poked with the values (valid raised) before the first step, stepped "+
+			"until the last output is valid; exactly one value per output, equal to the output registers at that moment. "+
+			"non-trivial = the shown outputs differ from those of the all-zero input run",
+		genPipe, propPipe),
+	pbt.Def("cli_rules",
+		"same cases as sim_rules, run by the real `bondmachine -sim -simbox-file -sim-report [-sim-stop-on-valid-of]` binary ($VERIF_TOOLS) in a scratch "+
+			"directory under a 30 s timeout; its stdout and report file must equal what the loop copy used by sim_rules prints (signature replica-drift "+
+			"otherwise: a harness defect), then the case is judged exactly like sim_rules. non-trivial = as sim_rules",
+		genSimCase, propCLI),
 }
 
 func TestProps(t *testing.T)  { pbt.RunAll(t, "C15", Props) }
